@@ -123,6 +123,7 @@ def smin(Pq):
 
 
 _FALLBACK = {"n": 0}
+_first_hist = {}
 
 
 def init_worker():
@@ -309,6 +310,11 @@ def run_case(case, seed):
             err = O.fro(X - Aplus)
             if err > nAp2 * bound * math.sqrt(kdim) * (1 + 1e-6) + 1e-11 * condA * nAp2:
                 fails.append(fail("converged=>pinv_accuracy", f"||X-A^+||={err:.3e} > ||A^+||_2 * bound = {nAp2 * bound * math.sqrt(kdim):.3e}", **tags))
+        if sd == 1 and ep in ("col", "row", "auto", "hyb") and len(hist) >= 2 and case.get("bs", case.get("r", 1)) < min(m, n):
+            if _first_hist.get(case["key"]) == hist:
+                fails.append(fail("seed_not_used", "constructor seeds 0 and 1 give the same residual history although the sketches are random", **tags))
+        if sd == 0:
+            _first_hist[case["key"]] = list(hist)
         # same seed twice -> identical
         if sd == 0:
             if ep in ("col", "row", "auto"):
